@@ -310,7 +310,7 @@ def replay_native(var, entry, inputs, work, tag):
     exe = var.build_native()
     rf = work.path("replay_%s_%s.txt" % (entry.name, tag))
     open(rf, "w").write(" ".join(str(x) for x in inputs) + "\n")
-    env = dict(os.environ, VP_REPLAY=rf, VP_REPS="400", ASAN_OPTIONS="detect_leaks=0:abort_on_error=0:detect_stack_use_after_return=1",
+    env = dict(os.environ, VP_REPLAY=rf, VP_REPS="400", ASAN_OPTIONS="detect_leaks=0:abort_on_error=0:halt_on_error=0:detect_stack_use_after_return=1",
                UBSAN_OPTIONS="print_stacktrace=0:halt_on_error=1")
     rc, so, se, dt = run([exe, entry.name], timeout=120, env=env)
     verdict = "not_reproduced"
@@ -529,7 +529,7 @@ class _SmtNative:
             return self.native
         u = self.unit
         exe = self.base + "_native"
-        cmd = ["g++", "-std=c++17", "-O1", "-g", "-fsanitize=address,undefined", "-fno-sanitize-recover=undefined", "-ffp-contract=off",
+        cmd = ["g++", "-std=c++17", "-O1", "-g", "-fsanitize=address,undefined", "-fno-sanitize-recover=undefined", "-fsanitize-recover=address", "-ffp-contract=off",
                "-fno-access-control", "-DRKCOMMON_VERIF", "-w", "-rdynamic", "-I" + REPO, "-I" + self.work.inc, "-I" + os.path.join(ROOT, "harness")] + \
               ["-D" + d for d in self.defs + u.native_defines] + [os.path.join(ROOT, u.src), os.path.join(HERE, "rt", "native_rt.cpp"), "-o", exe, "-ldl", "-lpthread"]
         rc, so, se, dt = run(cmd, timeout=600)
@@ -709,6 +709,10 @@ class PathUnit:
                     for attempt in range(self.replay_repeat):
                         verdict, what, rf = replay_native(var, e, o.get("inputs", []), work, "%d" % (hash(o["label"]) & 0xffffff))
                         rep.replayed += 1
+                        # a harness assertion must fail natively as that assertion (a sanitizer report of something else is not a confirmation)
+                        if verdict == "reproduced" and o["label"].startswith("VP:") and not o["label"].startswith(("VP:unexpected", "VP:uncaught")) \
+                                and o["label"][3:60] not in what:
+                            verdict, what = "not_reproduced", "native run failed differently: " + what[:120]
                         last = (verdict, what)
                         if verdict == "reproduced":
                             break
